@@ -560,6 +560,36 @@ func runC24File(r *vlib.Run, id, name, text string, src map[string]string, salt 
 			r.Class("clone-of-clone checked")
 		}
 	}
+	// a result that has no AST (parser.ResultWithoutAST): its clone has none either, answers every lookup with the
+	// placeholder node like the original, and owns its descriptor proto
+	if salt%3 == 0 {
+		noast := parser.ResultWithoutAST(proto.Clone(orig.FileDescriptorProto()).(*descriptorpb.FileDescriptorProto))
+		var c3 parser.Result
+		w := map[string]any{"file": name, "source": text}
+		if pv, stack := vlib.Try(func() { c3 = parser.Clone(noast) }); pv != nil {
+			r.Violation("c24.panic", "parser.Clone of a result without AST panics at "+vlib.PanicSite(stack), id, w)
+		} else if pv, stack := vlib.Try(func() {
+			switch {
+			case c3.AST() != nil:
+				r.Violation("c24.no-ast-clone", "the clone of a result without AST claims to have an AST", id, w)
+			case c3.FileNode() == nil || c3.FileNode() != noast.FileNode():
+				r.Violation("c24.no-ast-clone", "FileNode of the clone differs from the original's placeholder node", id, w)
+			case !proto.Equal(c3.FileDescriptorProto(), noast.FileDescriptorProto()):
+				r.Violation("c24.no-ast-clone", "descriptor proto of the clone differs", id, w)
+			case c3.FileDescriptorProto() == noast.FileDescriptorProto():
+				r.Violation("c24.no-ast-clone", "the clone shares the descriptor proto object", id, w)
+			}
+			for i, md := range c3.FileDescriptorProto().MessageType {
+				if c3.MessageNode(md) == nil || c3.MessageNode(md) != noast.MessageNode(noast.FileDescriptorProto().MessageType[i]) {
+					r.Violation("c24.no-ast-clone", "MessageNode of the clone differs from the original's placeholder node", id, w)
+					break
+				}
+			}
+		}); pv != nil {
+			r.Violation("c24.panic", "a lookup on the clone of a result without AST panics at "+vlib.PanicSite(stack), id, w)
+		}
+		r.Class("clone of a result without AST checked")
+	}
 	if src == nil {
 		r.Class("files checked structurally only (corpus)")
 		return
